@@ -1,6 +1,7 @@
 import PyhmsVerif.Model.Repair
 import Mathlib.Algebra.Order.Ring.Rat
 import Mathlib.Tactic.Linarith
+import PyhmsVerif.Proofs.DivmodIdeal
 /-!
 # C17 — bound repair always lands inside the box and only moves what it must
 
@@ -84,5 +85,63 @@ example : repair .reflect F64.rnd (-1/10) (1/5) (1/5) = some (1/5) := by decide 
 example : repair .toroidal F64.rnd (-20) 20 20 = some 20 := by decide +kernel
 example : repair .toroidal F64.rnd (-20) 20 (45/2) = some (-35/2) := by decide +kernel
 example : repair .reflect F64.rnd (-20) 20 (45/2) = some (35/2) := by decide +kernel
+
+end C17
+
+namespace C17
+open Repair F64
+
+theorem ideal_apply (q : Rat) : F64.ideal q = some q := rfl
+
+/-- **Toroidal wraps** (ideal arithmetic): a coordinate outside the box is mapped to
+`x − k·(upper − lower)` for an integer `k`, and that point lies in `[lower, upper)`. -/
+theorem toroidal_congr (lo hi x : Rat) (h : lo < hi) (hout : inBox lo hi x = false) :
+    ∃ k : Int, repair .toroidal F64.ideal lo hi x = some (x - (k : Rat) * (hi - lo)) ∧
+      lo ≤ x - (k : Rat) * (hi - lo) ∧ x - (k : Rat) * (hi - lo) < hi := by
+  obtain ⟨k, hk, h0, h1⟩ := npDivmod_ideal (x - lo) (hi - lo) (by linarith)
+  refine ⟨k, ?_, by linarith, by linarith⟩
+  have hy : lo + (x - lo - (k : Rat) * (hi - lo)) = x - (k : Rat) * (hi - lo) := by ring
+  simp only [repair, toroidalRaw, ideal_apply, Option.bind_some, npMod, hk, Option.map_some, hout,
+    Bool.false_eq_true, ↓reduceIte, hy, Option.some.injEq]
+  unfold clip
+  rw [max_eq_left (by linarith), min_eq_left (by linarith)]
+
+theorem int_01 (z : Int) (h0 : (0 : Rat) ≤ (z : Rat)) (h2 : (z : Rat) < 2) : z = 0 ∨ z = 1 := by
+  have a : (0 : Int) ≤ z := by exact_mod_cast h0
+  have b : z < 2 := by exact_mod_cast h2
+  omega
+
+/-- **Reflect mirrors** (ideal arithmetic): a coordinate outside the box is mapped to a point
+`y` of the box with `y − lower = (x − lower) − 2m·range` or `y − lower = −(x − lower) + 2m·range`
+for an integer `m` — congruent to ± the input modulo twice the range. -/
+theorem reflect_congr (lo hi x : Rat) (h : lo < hi) (hout : inBox lo hi x = false) :
+    ∃ (m : Int) (y : Rat), repair .reflect F64.ideal lo hi x = some y ∧ lo ≤ y ∧ y ≤ hi ∧
+      (y - lo = (x - lo) - 2 * (m : Rat) * (hi - lo) ∨ y - lo = -(x - lo) + 2 * (m : Rat) * (hi - lo)) := by
+  obtain ⟨k, hk, h0, h1⟩ := npDivmod_ideal (x - lo) (hi - lo) (by linarith)
+  obtain ⟨j, hj, j0, j1⟩ := npDivmod_ideal (k : Rat) 2 (by norm_num)
+  have hz : ((k - 2 * j : Int) : Rat) = (k : Rat) - (j : Rat) * 2 := by push_cast; ring
+  rcases int_01 (k - 2 * j) (by rw [hz]; exact j0) (by rw [hz]; exact j1) with hz0 | hz1
+  · -- even number of flips: plain wrap
+    have hodd : (k : Rat) - (j : Rat) * 2 = 0 := by rw [← hz, hz0]; simp
+    have hke : (k : Rat) = 2 * (j : Rat) := by linarith
+    refine ⟨j, lo + (x - lo - (k : Rat) * (hi - lo)), ?_, by linarith, by linarith, Or.inl ?_⟩
+    · simp only [repair, reflectRaw, ideal_apply, Option.bind_some, npFloorDiv, npMod, hk, hj, Option.map_some, hodd,
+        zero_ne_one, ↓reduceIte, hout, Bool.false_eq_true, Option.some.injEq]
+      unfold clip
+      rw [max_eq_left (by linarith), min_eq_left (by linarith)]
+    · rw [hke]; ring
+  · -- odd number of flips: mirrored
+    have hodd : (k : Rat) - (j : Rat) * 2 = 1 := by rw [← hz, hz1]; simp
+    have hke : (k : Rat) = 2 * (j : Rat) + 1 := by linarith
+    refine ⟨j + 1, lo + (hi - lo - (x - lo - (k : Rat) * (hi - lo))), ?_, by linarith, by linarith, Or.inr ?_⟩
+    · simp only [repair, reflectRaw, ideal_apply, Option.bind_some, npFloorDiv, npMod, hk, hj, Option.map_some, hodd,
+        ↓reduceIte, hout, Bool.false_eq_true, Option.some.injEq]
+      unfold clip
+      rw [max_eq_left (by linarith), min_eq_left (by linarith)]
+    · rw [hke]; push_cast; ring
+
+-- non-vacuity: wrap and mirror of 22.5 in [-20, 20] (ideal arithmetic)
+example : repair .toroidal F64.ideal (-20) 20 (45/2) = some (-35/2) := by decide +kernel
+example : repair .reflect F64.ideal (-20) 20 (45/2) = some (35/2) := by decide +kernel
 
 end C17
